@@ -256,7 +256,12 @@ def body_bytes(kind, idx):
 
 
 SHAPES = ('canon', 'nospace', 'lf', 'folded', 'empty', 'long', 'wide', 'noreason', 'foldedblank', 'nocolon', 'hibyte', 'huge', 'tabfold',
-          'ctnosemi', 'ctspace', 'ctodd', 'line4098', 'line4097', 'line8194', 'precrlf')
+          'ctnosemi', 'ctspace', 'ctodd', 'line4098', 'line4097', 'line8194', 'precrlf', 'interim', 'interim103',
+          'nelct', 'nelcl', 'ffct')
+
+
+# shapes that only make sense through the real client (it may refuse or reinterpret them)
+NET_ONLY = ('huge', 'precrlf', 'interim', 'interim103', 'nelcl')
 
 
 def response_wire(shape, body, idx):
@@ -327,6 +332,23 @@ def response_wire(shape, body, idx):
         # client accepts such an answer is its business (like 'huge'); if it does, the archive still has to be right
         h = b'\r\nHTTP/1.1 200 OK\r\nContent-Type: image/svg+xml\r\nContent-Length: %d\r\n\r\n' % n
         return h, body, 200, 'image/svg+xml'
+    if shape in ('interim', 'interim103'):
+        # an interim response (RFC 7231 6.2) in front of the final one: the archived response is the final one - its
+        # status and media type go into the index, its body is the payload
+        pre = (b'HTTP/1.1 100 Continue\r\n\r\n' if shape == 'interim' else
+               b'HTTP/1.1 103 Early Hints\r\nLink: </s.css>; rel=preload\r\nContent-Type: text/x-hint\r\n\r\n')
+        h = pre + b'HTTP/1.1 200 OK\r\nContent-Type: text/html\r\nContent-Length: %d\r\n\r\n' % n
+        return h, body, 200, 'text/html'
+    if shape in ('nelct', 'ffct'):
+        # ONE field line (lines end at LF) whose value holds octet 0x85 / 0x0c followed by text that looks like a field
+        sep = b'\xc3\x85' if shape == 'nelct' else b'\x0c'
+        h = (b'HTTP/1.1 200 OK\r\nX-Author: ' + sep + b'Content-Type: image/png\r\nContent-Type: text/html\r\n'
+             b'Content-Length: %d\r\n\r\n' % n)
+        return h, body, 200, 'text/html'
+    if shape == 'nelcl':
+        h = (b'HTTP/1.1 200 OK\r\nX-Author: \xc3\x85Content-Length: 1\r\nContent-Type: text/rtf\r\n'
+             b'Content-Length: %d\r\n\r\n' % n)
+        return h, body, 200, 'text/rtf'
     if shape == 'empty':
         return b'HTTP/1.1 200 OK\r\n\r\n', body, 200, '-'
     if shape == 'long':
@@ -554,7 +576,7 @@ class Exec(object):
                     raise
                 return
             raise RuntimeError('the truncated response was accepted by the HTTP client')
-        if e['shape'] in ('huge', 'precrlf'):
+        if e['shape'] in NET_ONLY:
             # only through the real client; a client that refuses the header leaves no response record (fine)
             try:
                 return self.do_net(rec, url, head, body, e)
@@ -802,13 +824,15 @@ class Exec(object):
                         'dg': self._intern(self.strs, pdtok),
                         # scenario knowledge (wire bytes sent by the scripted server)
                         'whl': max(w.get('hl', 0), 0), 'pdw': bool(w) and f['pdv'] == w.get('bd'),
+                        'hw': bool(w), 'wst': max(w.get('status', 0), 0),
+                        'wmi': self._intern(self.strs, w.get('mime', '-').lower()),
                         'shape': w.get('shape', ''), 'hc': w.get('hdrclass', ''),
                     })
                 else:
                     rec.update({'t': 'none', 'r': 0, 'w': 0, 'ct': 0, 'u': 0, 'ver': False, 'tail': False, 'he': False,
                                 'nb': 0, 'nd': 0, 'clf': False, 'cl': 0, 'bl': 0, 'bd': 'none', 'pdp': False,
                                 'pdf': False, 'pdk': 0, 'hlf': False, 'hl': 0, 'http': False, 'resp': False, 'st': 0,
-                                'mi': 0, 'dg': 0, 'whl': 0, 'pdw': False, 'shape': '', 'hc': ''})
+                                'mi': 0, 'dg': 0, 'whl': 0, 'pdw': False, 'hw': False, 'wst': 0, 'wmi': 0, 'shape': '', 'hc': ''})
                 out.append(rec)
             files.append({'f': file_id(name), 'sz': len(data), 'gz': name.endswith('.gz'), 'm': out, 'name': name})
         return {'files': files, 'cdx': cdx, 'cdxon': cdxon, 'cdxhdr': cdxhdr}
